@@ -451,7 +451,7 @@ def run(chk, tier):
             sti = St()
             ci = e1h.run(hcl[0], [e1h.sym_ref(sti, 'env'), val], sti)
             got = sorted({vshow(o.value) if o.kind == 'return' else o.kind for o in ci})
-            if got == [wv]:
+            if got == [wv] or got == ['call:' + wv]:      # the variant constructor may be applied as a function (`map_or(Unknown, FlowEntry::Known)`)
                 chk.ok('R7', 'from_hops:' + nm, wv)
             else:
                 chk.fail('R7', 'from_hops:' + nm, fn_loc(hcl[0]), 'Flow::from_hops maps %s to %s, expected %s' % (nm, got, wv), key='R7|from_hops|%s' % nm)
